@@ -303,6 +303,7 @@ class CSSMediaRule(cssrule.CSSRuleRules):
            isinstance(rule, css_parser.css.CSSFontFaceRule) or \
            isinstance(rule, css_parser.css.CSSImportRule) or \
            isinstance(rule, css_parser.css.CSSNamespaceRule) or \
+           isinstance(rule, css_parser.css.CSSVariablesRule) or \
            isinstance(rule, css_parser.css.MarginRule):
             self._log.error('%s: This type of rule is not allowed here: %s'
                             % (self.__class__.__name__, rule.cssText),
